@@ -1,10 +1,11 @@
 """C02 — operation states and captured objects are destroyed exactly once, never early."""
 from ..evt import EventPart
 from ..runner import run_check
+from ..loops import LoopPart
 
 
 def run(tier, seed, replay=None):
-    parts = [EventPart("evt", report_crashes=True, src_file="evt_tv.cpp", faults_quick=100, faults_thorough=100)]
+    parts = [EventPart("evt", report_crashes=True, src_file="evt_tv.cpp", faults_quick=100, faults_thorough=100), LoopPart()]
     return run_check(
         "C02", tier, seed, ["UnifexModel.Props.C02"], parts,
         rule="generated sender expressions + event scripts (see C05) on the REAL library, with a TRACKED value type travelling through the tree (constructions/destructions counted, "
